@@ -35,3 +35,66 @@ pub fn program_pool(r: &mut Rng) -> String {
     let c = crate::corpus::all();
     c[r.usize(c.len())].clone()
 }
+
+// Small in-process workloads for the Miri shards (thorough tier of C09, C12, C14).
+pub fn miri_shard(kind: &str, seed: u64, shard: u64, nshards: u64, count: u64) -> i32 {
+    crate::fw::install_panic_hook();
+    colored::control::set_override(false);
+    let tier = crate::fw::Tier::Quick;
+    let mut violations = 0;
+    match kind {
+        "c09" => {
+            let mut ctx = crate::fw::Ctx::new("C09", tier, seed);
+            for i in 0..count {
+                let idx = shard + i * nshards;
+                let mut r = Rng::for_case(seed, 77, idx);
+                let s = if idx % 3 == 0 {
+                    let mut t = String::new();
+                    for _ in 0..(1 + r.usize(300)) {
+                        t.push((b'0' + r.below(10) as u8) as char);
+                    }
+                    format!("x = {t}; x * {t}")
+                } else {
+                    let mut t = c09::random_text(&mut r);
+                    t.truncate(t.char_indices().nth(40).map_or(t.len(), |x| x.0));
+                    t
+                };
+                c09::check_text(&mut ctx, &s);
+            }
+            violations += ctx.violations;
+        }
+        "c14" => {
+            let mut ctx = crate::fw::Ctx::new("C14", tier, seed);
+            let corpus: Vec<String> = crate::corpus::all().into_iter().filter(|s| s.len() < 120 && !s.contains("omega")).collect();
+            for i in 0..count {
+                let idx = shard + i * nshards;
+                let mut r = Rng::for_case(seed, 78, idx);
+                let base = &corpus[r.usize(corpus.len())];
+                // one random byte-level mutation (kept valid UTF-8 by construction)
+                let mut chars: Vec<char> = base.chars().collect();
+                if !chars.is_empty() {
+                    let p = r.usize(chars.len());
+                    match r.below(3) {
+                        0 => {
+                            chars.remove(p);
+                        }
+                        1 => chars.insert(p, ['(', ')', '=', ';', '$', 'x', '1', '\n'][r.usize(8)]),
+                        _ => chars[p] = ['(', ')', '+', '-', 'y', '2', ' '][r.usize(7)],
+                    }
+                }
+                let s: String = chars.into_iter().collect();
+                c14::check_library(&mut ctx, &s, true);
+            }
+            violations += ctx.violations;
+        }
+        "c12" => {
+            let mut ctx = crate::fw::Ctx::new("C12", tier, seed);
+            violations += c12::miri_cases(&mut ctx, seed, shard, nshards, count);
+        }
+        _ => return 2,
+    }
+    println!("miri shard {kind} {shard}/{nshards}: {count} cases, {violations} violations");
+    // monitor violations are the ordinary checks' business; under Miri only Miri's own reports
+    // (undefined behaviour, leaks) decide, through Miri's exit status
+    0
+}
